@@ -243,7 +243,7 @@ def gen_typed_ops(shape_name, state, rng):
     return ops, st
 
 
-def gen_writer(rng, wid, shape_name, end, typed=False):
+def gen_writer(rng, wid, shape_name, end, typed=False, composite_inv=False):
     shape = SHAPES[shape_name]
     state = fresh(shape)
     script = {}
@@ -260,6 +260,11 @@ def gen_writer(rng, wid, shape_name, end, typed=False):
                 if shape_name in ("TS", "TSStr") and rng.random() < 0.08 and state is not None:
                     ops.append(["inv", ""])
                     state = None
+                elif composite_inv and shape[0] in ("TSB", "TSL") and not has_window(shape) and is_valid(shape, state) and rng.random() < 0.06:
+                    # explicit invalidation of a fixed-shape composite endpoint (all children go invalid with it; what an
+                    # invalidated set or dictionary holds afterwards is not defined by the statements, so those are left out)
+                    ops.append(["inv", ""])
+                    state = fresh(shape)
                 else:
                     d = gen_delta(shape, state, rng)
                     ops.append(["d", jd(d)])
